@@ -7,6 +7,7 @@ import VueJsx.Base
 import VueJsx.Canon
 import VueJsx.Attrs
 import VueJsx.Sem
+import VueJsx.TypeSpec
 
 namespace VueJsx
 open Text
@@ -888,4 +889,230 @@ end VueJsx
 namespace VueJsx
 def oraclePair (mode : String) (o : Opts) (env : Env) (a b : Node) : Verdict :=
   if mode.startsWith "c10" then oracleC10 mode a b else oraclePair0 mode o env a b
+end VueJsx
+
+/-! ### C16–C19: resolveType -/
+namespace VueJsx
+
+structure DcView where
+  ci : Node
+  co : Node
+  propsTy : Option Node        -- annotated type of the first setup parameter
+  defaults : Option Node       -- its default value
+  emitsTy : Option Node        -- E of `SetupContext<E>` on the second parameter
+  userKeys : List String       -- options the user wrote
+  outOpts : List Node          -- entries of the output's options object
+  deriving Inhabited
+
+def optionsEntries (c : Node) : List Node :=
+  match ((argsOf c)[1]? : Option Node) with
+  | some (.mk .arg _ [.mk .object _ [.mk .list _ props]]) => props
+  | _ => []
+
+def dcViews (o : Opts) (inN outN : Node) : List DcView :=
+  if !o.resolveType then [] else
+  let binds := vueDefineBinds inN
+  (pairCalls inN (stripInserted outN) none).filterMap fun p =>
+    let ci := p.2.1
+    let co := p.2.2
+    match calleeOfCall ci with
+    | .mk .ident ("defineComponent" :: b :: _) _ =>
+      if !binds.contains b then none else
+      match (argsOf ci).head? with
+      | some first =>
+        match setupParams first with
+        | none => none
+        | some params =>
+          let p0 := params.head?
+          let defaults : Option Node := match p0 with | some (.mk .assignPat _ [_, r]) => some r | _ => none
+          let propsTy := p0.bind (patTypeAnn 64)
+          let emitsTy : Option Node :=
+            match (params[1]? : Option Node) with
+            | some q =>
+              let ann := match q with
+                | .mk .ident _ [a] => typeAnnInner a
+                | .mk .arrayPat _ [_, a] => typeAnnInner a
+                | .mk .objectPat _ [_, a] => typeAnnInner a
+                | _ => none
+              match ann with
+              | some (.mk .tsTypeRef _ [.mk .ident ("SetupContext" :: _) _, .mk .tsTypeParamInst _ [.mk .list _ (e :: _)]]) => some e
+              | _ => none
+            | none => none
+          let userKeys := ["props", "emits", "name"].filter fun k => (optionsEntries ci).any (isOptionNamed · k)
+          let spreadArgs := ((argsOf ci).take 2).any fun a => match a with | .mk .spreadArg _ _ => true | _ => false
+          if spreadArgs then none else
+          some { ci := ci, co := co, propsTy := propsTy, defaults := defaults, emitsTy := emitsTy, userKeys := userKeys, outOpts := optionsEntries co }
+      | none => none
+    | _ => none
+
+def optionValue (entries : List Node) (name : String) : Option Node :=
+  entries.findSome? fun e => match e with | .mk .kv _ [k, v] => (if staticKeyOf k == some name then some v else none) | _ => none
+
+/-- the declared-props object: either the literal, or the first argument of `mergeDefaults(props, defaults)` -/
+def propsObjectOf (v : Node) : Option (List Node × Option Node) :=
+  match v with
+  | .mk .object _ [.mk .list _ ps] => some (ps, none)
+  | .mk .call _ [.mk .ident ("_mergeDefaults" :: _) _, .mk .list _ [.mk .arg _ [.mk .object _ [.mk .list _ ps]], .mk .arg _ [d]], _] => some (ps, some d)
+  | _ => none
+
+def keyText (k : Node) : String :=
+  match k with
+  | .mk .ident (n :: _) _ => "i:" ++ n
+  | .mk .str (v :: _) _ => "s:" ++ v
+  | .mk .num (v :: _) _ => "n:" ++ v
+  | _ => "?"
+
+def ctorName : Ctor → String
+  | .named n => n
+  | .nullValue => "null"
+  | .anyValue => "any"
+
+def sameCtorSet (a b : List Ctor) : Bool := a.all (b.contains ·) && b.all (a.contains ·)
+
+def boolStringOrder (cs : List Ctor) : List Ctor := cs.filter fun c => c == .named "Boolean" || c == .named "String"
+
+/-- the module with every bigint LITERAL type read as a number literal type (the recorded C17 finding's reading) -/
+partial def bigLitAsNumber (n : Node) : Node :=
+  match n with
+  | .mk .tsLitType as [.mk .bigint las lks] => .mk .tsLitType as [.mk .num las lks]
+  | .mk k as ks => .mk k as (ks.map bigLitAsNumber)
+
+/-- C16 / C17 on one call -/
+def propsJudge (prop : String) (reg regBL : St) (diags : List String) (bigLitInModule : Bool) (v : DcView) : Option (String × String) :=
+  match v.propsTy with
+  | none => none
+  | some ty =>
+    if v.userKeys.contains "props" then none else
+    let emitted := (optionValue v.outOpts "props").bind propsObjectOf
+    match propsOfType FUEL reg ty, emitted with
+    | .outside, _ => none
+    | .unresolved, _ =>
+      -- imported / undeclared / unsupported: must have been reported
+      if prop == "C16" && diags.isEmpty then some ("unresolved-type-not-reported", s!"no error for the props type {showN ty}") else none
+    | .ok _, none => if prop == "C16" then some ("props-not-injected", s!"no props option for {showN ty}") else none
+    | .ok spec, some (entries, _) =>
+      if prop == "C16" then
+        let eKeys := entries.filterMap fun e => match e with | .mk .kv _ [k, _] => some (keyText k) | _ => none
+        let sKeys := spec.map (keyText ·.key)
+        if !(sKeys.all (eKeys.contains ·) && eKeys.all (sKeys.contains ·)) then
+          some (if !diags.isEmpty && eKeys.length < sKeys.length then "declared-props-missing/with-error" else "declared-props-mismatch",
+                s!"declared {sKeys} emitted {eKeys} (diagnostics {diags})")
+        else if !diags.isEmpty then some ("spurious-error", s!"the type resolves to {sKeys} but an error was reported: {diags}")
+        else
+          -- a key declared several times (intersection / merged interfaces): optional only if every occurrence is
+          let dupFree := spec.filter fun p => (spec.filter (fun q => keyText q.key == keyText p.key)).length == 1
+          match dupFree.find? (fun p =>
+            let ent := entries.findSome? fun e => match e with | .mk .kv _ [k, .mk .object _ [.mk .list _ fs]] => (if keyText k == keyText p.key then some fs else none) | _ => none
+            match ent.bind (optionValue · "required") with
+            | some (.mk .bool [b] _) => (b == "true") == p.optional
+            | _ => true) with
+          | some p => some ("requiredness", s!"prop {keyText p.key} optional={p.optional}")
+          | none => none
+      else
+        -- C17: the emitted constructors are those of the declared type (all occurrences of a key together)
+        spec.findSome? fun p =>
+          let ent := entries.findSome? fun e => match e with | .mk .kv _ [k, .mk .object _ [.mk .list _ fs]] => (if keyText k == keyText p.key then some fs else none) | _ => none
+          match ent.bind (optionValue · "type") with
+          | none => none
+          | some te =>
+            let occ := spec.filter fun q => keyText q.key == keyText p.key
+            let expected := normCtors (occ.foldl (fun acc q =>
+              ctorUnion acc (if q.isMethod then [Ctor.named "Function"] else match q.ty with | some t => ctorsOfType FUEL reg t | none => [.anyValue])) [])
+            match ctorsOfEmitted te with
+            | none => some ("type-expression", showN te)
+            | some got =>
+              -- `type: null` (no check) is how a lone `null`/`undefined` type is emitted: sound
+              if got == [.anyValue] && expected == [.nullValue] then none
+              else if !sameCtorSet expected got then
+                -- the recorded finding: a bigint LITERAL type is mapped to Number (possibly behind aliases)
+                let expectedBL := normCtors (occ.foldl (fun acc q =>
+                  ctorUnion acc (if q.isMethod then [Ctor.named "Function"] else match q.ty with | some t => ctorsOfType FUEL regBL (bigLitAsNumber t) | none => [.anyValue])) [])
+                let hasBigLit := bigLitInModule && sameCtorSet expectedBL got
+                some ((if expected == [.anyValue] then "runtime-type/any-in-union" else if hasBigLit then "runtime-type/bigint-literal" else "runtime-type"),
+                      s!"prop {keyText p.key}: type {match p.ty with | some t => showN t | none => "method"} has constructors {expected.map ctorName} but {got.map ctorName} were emitted")
+              else if boolStringOrder expected != boolStringOrder got then
+                some ("boolean-string-order", s!"prop {keyText p.key}: {got.map ctorName}")
+              else none
+
+def emitsJudge (reg : St) (diags : List String) (v : DcView) : Option (String × String) :=
+  if v.userKeys.contains "emits" then none else
+  let emitted : Option (List String) := (optionValue v.outOpts "emits").bind fun e =>
+    match e with
+    | .mk .array _ [.mk .list _ es] => some (es.filterMap fun x => match x with | .mk .arg _ [.mk .str (s :: _) _] => some s | _ => none)
+    | _ => none
+  match v.emitsTy with
+  | none => if emitted.isSome then some ("emits-without-annotation", "an emits option was injected without a SetupContext<E> annotation") else none
+  | some ty =>
+    match emitsOfType FUEL reg ty, emitted with
+    | none, _ => if diags.isEmpty && emitted.isNone then some ("unresolved-emits-not-reported", showN ty) else none
+    | some _, none => some ("emits-not-injected", showN ty)
+    | some spec, some got =>
+      if spec.all (got.contains ·) && got.all (spec.contains ·) then none
+      else some (if !diags.isEmpty then "declared-events-mismatch/with-error" else "declared-events-mismatch", s!"declared {spec} emitted {got} (diagnostics {diags})")
+
+/-- C18: the default Vue resolves for a prop is the value written -/
+def defaultsJudge (reg : St) (v : DcView) : Option (String × String) :=
+  match v.propsTy, v.defaults with
+  | some ty, some d =>
+    if v.userKeys.contains "props" then none else
+    match (optionValue v.outOpts "props").bind propsObjectOf, propsOfType FUEL reg ty with
+    | some (entries, merged), .ok spec =>
+      let static := match d with | .mk .object _ [.mk .list _ ps] => allStaticSpec ps | _ => none
+      match static, merged with
+      | none, some dd => if canon dd == canon d then none else some ("mergeDefaults-argument", showN dd)
+      | none, none => some ("dynamic-defaults-not-merged", s!"the default {showN d} is not statically analysable but mergeDefaults was not used")
+      | some _, some _ => some ("static-defaults-merged-at-runtime", "statically known defaults were passed to mergeDefaults")
+      | some ds, none =>
+        spec.findSome? fun p =>
+          let ent := entries.findSome? fun e => match e with | .mk .kv _ [k, .mk .object _ [.mk .list _ fs]] => (if keyText k == keyText p.key then some fs else none) | _ => none
+          let got := ent.bind (optionValue · "default")
+          let isFn := p.isMethod || (match p.ty with | some t => (normCtors (ctorsOfType FUEL reg t)).contains (.named "Function") | none => false)
+          let want := (ds.find? (fun x => x.1 == specKeyName p.key)).map fun x => expectedDefault isFn x.2
+          match want, got with
+          | none, none => none
+          | some w, some g => if canon w == canon g then none else some ((if isFn then "default-value/function-typed" else "default-value"), s!"prop {keyText p.key}: expected {showN w} got {showN g}")
+          | some w, none => some ("default-missing", s!"prop {keyText p.key}: expected {showN w}")
+          | none, some g => some ("default-invented", s!"prop {keyText p.key}: {showN g}")
+    | _, _ => none
+  | _, _ => none
+where
+  /-- statically known defaults: (key name, written form) -/
+  allStaticSpec (ps : List Node) : Option (List (String × Node)) :=
+    ps.foldl (fun acc p =>
+      match acc with
+      | none => none
+      | some a =>
+        match p with
+        | .mk .ident (n :: _) _ => some (a ++ [(n, S "shorthand" [] [p])])
+        | .mk .kv _ [k, v] =>
+          (match k with
+           | .mk .computed _ [.mk .str (s :: _) _] => some (a ++ [(s, v)])
+           | .mk .computed _ [.mk .num (s :: _) _] => some (a ++ [(s, v)])
+           | .mk .computed _ _ => none
+           | k => (staticKeyOf k).map fun s => a ++ [(s, v)])
+        | .mk .getterProp _ [k, _, body] => (match (k : Node) with | .mk .computed _ [.mk .str (s :: _) _] => some s | .mk .computed _ _ => none | k => staticKeyOf k).map fun s => a ++ [(s, S "getter" [] [body])]
+        | .mk .methodProp as (k :: fnKids) => (match (k : Node) with | .mk .computed _ [.mk .str (s :: _) _] => some s | .mk .computed _ _ => none | k => staticKeyOf k).map fun s => a ++ [(s, S "method" [] [Node.mk .fnExpr as (nNone :: fnKids)])]
+        | _ => none) (some [])
+  /-- what the `default` entry must be for a written default -/
+  expectedDefault (isFn : Bool) (w : Node) : Node :=
+    match w with
+    | .mk (.other "shorthand") _ [.mk .ident (n :: b :: _) _] => if isFn then nIdent n b else nArrow [] (nIdent n b)
+    | .mk (.other "getter") _ [body] => if isFn then nCall (nArrow [] body) [] else nArrow [] body
+    | .mk (.other "method") _ [f] => f                       -- a method: the function itself
+    | v => if isLit v || isFn then v else nArrow [] v
+
+def oracleTypes (prop : String) (o : Opts) (inN outN : Node) (diags : List String) : Verdict :=
+  if !o.resolveType then .skip "resolveType-off" else
+  let reg := specRegistry inN
+  let views := dcViews o inN outN
+  if views.isEmpty then .skip "no-defineComponent-call" else
+  let judge (v : DcView) : Option (String × String) :=
+    if prop == "C16" || prop == "C17" then
+      propsJudge prop reg (specRegistry (bigLitAsNumber inN)) diags (!(collect (fun x => match x with | .mk .tsLitType _ [.mk .bigint _ _] => true | _ => false) inN).isEmpty) v
+    else if prop == "C19" then emitsJudge reg diags v
+    else defaultsJudge reg v
+  match views.findSome? judge with
+  | some (k, d) => .fail k d
+  | none => .ok
+
 end VueJsx
